@@ -1405,7 +1405,7 @@ def c18d(F, R):
             R.bad(name, f"{name}::display_errors prints every diagnostic without consulting the base-file filter: it disagrees with the other printers on multi-file input", f["sp"])
 
 
-KEEPS = {"clone", "iter", "map", "collect", "len", "is_empty", "into_iter", "enumerate", "cloned", "copied", "by_ref", "for_each",
+KEEPS = {"clone", "iter", "map", "collect", "len", "is_empty", "into_iter", "partition", "enumerate", "cloned", "copied", "by_ref", "for_each",
          "as_slice", "to_vec", "to_owned", "as_ref", "borrow", "peekable", "inspect", "iter_mut", "as_mut_slice"}
 LOSES = {"dedup", "dedup_by", "dedup_by_key", "retain", "retain_mut", "filter", "filter_map", "take", "take_while", "skip", "skip_while", "step_by",
          "truncate", "drain", "pop", "remove", "swap_remove", "split_off", "clear", "first", "last", "nth", "find", "find_map", "position",
@@ -1490,12 +1490,22 @@ def c18e(F, R):
                             derived.add(nm)
                             work += [y for y in walk(body, pats=False) if y.get("k") == "Path" and y.get("res") == nm]
                         break
+                    if k == "Let" and par.get("init") is x and par["pat"].get("k") == "PTuple" and x.get("k") == "MethodCall" and x["name"] == "partition":
+                        # `let (shown, hidden) = list.into_iter().partition(..)`: two order-preserving sub-lists that together hold every element
+                        for b_ in walk(par["pat"]):
+                            if b_.get("k") == "PBinding" and b_["name"] not in derived:
+                                derived.add(b_["name"])
+                                work += [y for y in walk(body, pats=False) if y.get("k") == "Path" and y.get("res") == b_["name"]]
+                        break
                     break
         f = F.fn([it["path"] for it in i["items"] if it["name"] == "display_errors"][0])
         # loops over the list: no break/return; continue only under the base-file selection
+        parts = {b_["name"] for st_ in walk(f["hir"]["value"], pats=False) if st_.get("k") == "Let" and st_["pat"].get("k") == "PTuple" and st_.get("init") is not None
+                 and any(m_.get("k") == "MethodCall" and m_["name"] == "partition" for m_ in walk(st_["init"], pats=False)) and any(n.get("k") == "Field" and ekey(n) == root for n in walk(st_["init"], pats=False))
+                 for b_ in walk(st_["pat"]) if b_.get("k") == "PBinding"}
         for fl in for_loops(f["hir"]["value"]):
             it = fl["iter"]
-            if not any(n.get("k") == "Field" and ekey(n) == root for n in walk(it, pats=False)):
+            if not any(n.get("k") == "Field" and ekey(n) == root for n in walk(it, pats=False)) and not any(n.get("k") == "Path" and n.get("res") in parts for n in walk(it, pats=False)):
                 continue
             pmb = parent_map(fl["body"])
             for n in walk(fl["body"], pats=False):
@@ -1742,11 +1752,49 @@ def c18j(F, R):
     g = F.fn(dp[0])
     body = g["hir"]["value"]
     ifs = [n for n in walk(body, pats=False) if n.get("k") == "If" and any(y.get("k") == "Continue" for y in walk(n["then"], pats=False)) and any(x.get("k") == "Field" and x["name"] == "all_files" for x in walk(n["cond"], pats=False))]
+    lets_j = {s_["pat"]["name"]: s_ for s_ in walk(body, pats=False) if s_.get("k") == "Let" and s_["pat"].get("k") == "PBinding" and s_.get("init") is not None}
     if len(ifs) != 1:
+        # the selection written as `let (shown, hidden) = list.partition(|d| <shown test>)`
+        part = [m_ for m_ in walk(body, pats=False) if m_.get("k") == "MethodCall" and m_["name"] == "partition" and m_["args"] and peel(m_["args"][0]).get("k") == "Closure"]
+        if len(part) == 1:
+            cl = peel(part[0]["args"][0])
+
+            def classify_p(e):
+                if e.get("k") == "Field" and e["name"] == "all_files":
+                    return "all"
+                if e.get("k") == "Path" and e.get("res_kind") == "Local" and e.get("res") in lets_j and peel(lets_j[e["res"]]["init"]).get("k") == "Field" and peel(lets_j[e["res"]]["init"])["name"] == "all_files":
+                    return "all"
+                if e.get("k") == "Binary" and e["op"] in ("Eq", "Ne") and any(x.get("k") == "Field" and x["name"] == "file" for x in walk(e, pats=False)):
+                    return "same" if e["op"] == "Eq" else "differs"
+                if e.get("k") == "MethodCall" and e["name"] in ("map_or", "is_none_or") and e["args"]:
+                    # `base.map_or(true, |b| d.file == b)`: without a base file everything is shown; else the comparison
+                    dflt = lit_value(e["args"][0]) if e["name"] == "map_or" else True
+                    cl2 = peel(e["args"][-1])
+                    if dflt is True and cl2.get("k") == "Closure":
+                        b2 = peel(cl2["body"])
+                        while b2.get("k") == "Block" and not b2.get("stmts") and b2.get("expr") is not None:
+                            b2 = peel(b2["expr"])
+                        if b2.get("k") == "Binary" and b2["op"] in ("Eq", "Ne") and any(x.get("k") == "Field" and x["name"] == "file" for x in walk(b2, pats=False)):
+                            return "same" if b2["op"] == "Eq" else "differs"
+                return None
+            wrong = []
+            try:
+                for same in (True, False):
+                    for allf in (True, False):
+                        r = bool_eval(cl["body"], classify_p, {"same": same, "differs": not same, "all": allf})
+                        if r != (same or allf):
+                            wrong.append(f"same file = {same}, --all-files = {allf}: shown = {r}")
+            except BoolUnx as ex:
+                R.bad("condition|unextractable", f"UNEXTRACTABLE: file-selection predicate of `partition` ({ex})", loc(part[0]))
+                return
+            if wrong:
+                R.bad("condition", f"the pretty/compact printer selects the diagnostics to show under the wrong condition ({wrong[0]})", loc(part[0]))
+            else:
+                R.ok("condition", detail="shown iff same file or --all-files (partition form)", where=loc(part[0]))
+            return
         R.bad("shape", f"UNEXTRACTABLE: expected one `if <file test && all_files test> {{ .. continue }}` in PrettyPrint::display_errors, found {len(ifs)}", g["sp"])
         return
 
-    lets_j = {s_["pat"]["name"]: s_ for s_ in walk(body, pats=False) if s_.get("k") == "Let" and s_["pat"].get("k") == "PBinding" and s_.get("init") is not None}
 
     def classify(e):
         if e.get("k") == "Field" and e["name"] == "all_files":
@@ -1838,6 +1886,7 @@ def c07p(F, R):
 
 
 @rule("C18", "C18.l.other-file-diagnostics-are-counted", floor=2)
+@rule("C16", "C16.h.other-file-diagnostics-are-counted", floor=2)
 @rule("C15", "C15.g.other-file-diagnostics-are-counted", floor=2)
 def c15g(F, R):
     """a diagnostic that is not shown because it lies in another file is counted, and the count is announced: the counter starts at 0, is incremented by 1 exactly where the diagnostic is skipped, and the notice is printed when it is greater than 0"""
@@ -1847,8 +1896,45 @@ def c15g(F, R):
     g = F.fn(dp[0])
     body = g["hir"]["value"]
     skip = [n for n in walk(body, pats=False) if n.get("k") == "If" and any(y.get("k") == "Continue" for y in walk(n["then"], pats=False)) and any(x.get("k") == "Field" and x["name"] == "all_files" for x in walk(n["cond"], pats=False))]
+    prints_ = lambda blk: any(c.get("k") == "Call" and short(callee_of(c) or "") == "_print" for c in walk(blk, pats=False))
+
+    def no_exit_before(notice):
+        """nothing leaves the function before the notice (an early `return` when nothing is shown hides the count as well)"""
+        top = peel(body)
+        stmts_ = top.get("stmts", []) + ([top["expr"]] if top.get("expr") is not None else [])
+        for st in stmts_:
+            if st is notice or any(y is notice for y in walk(st, pats=False)):
+                return None
+            for y in walk(st, pats=False):
+                if y.get("k") == "Closure":
+                    continue
+                if y.get("k") == "Ret" and not any(y is z for cl_ in walk(st, pats=False) if cl_.get("k") == "Closure" for z in walk(cl_, pats=False)):
+                    return y
+        return None
     if len(skip) != 1:
-        R.bad("shape", "UNEXTRACTABLE: the skip of other-file diagnostics was not found", g["sp"])
+        # partition form: `let (shown, hidden) = ..partition(..)`, notice under `!hidden.is_empty()` / `hidden.len() > 0`
+        tl = [st for st in walk(body, pats=False) if st.get("k") == "Let" and st["pat"].get("k") == "PTuple" and st.get("init") is not None and any(m_.get("k") == "MethodCall" and m_["name"] == "partition" for m_ in walk(st["init"], pats=False))]
+        names_ = [b_["name"] for st in tl for b_ in walk(st["pat"]) if b_.get("k") == "PBinding"]
+        notes = [n for n in walk(body, pats=False) if n.get("k") == "If" and prints_(n["then"]) and any(x.get("k") == "Path" and x.get("res") in names_ for x in walk(n["cond"], pats=False))]
+        if len(tl) != 1 or len(names_) != 2 or not notes:
+            R.bad("shape", "UNEXTRACTABLE: the skip of other-file diagnostics was not found", g["sp"])
+            return
+        hidden = names_[1]
+        R.ok("increment", detail=f"diagnostics that are not shown are collected in `{hidden}` (partition)", where=loc(tl[0]))
+        c = peel(notes[0]["cond"])
+        while c.get("k") in ("DropTemps", "Use"):
+            c = peel(c["e"])
+        pos = (c.get("k") == "Unary" and c["op"] == "Not" and peel(c["a"]).get("k") == "MethodCall" and peel(c["a"])["name"] == "is_empty" and ekey(peel(c["a"])["recv"]).lstrip("&*") == hidden) or \
+              (c.get("k") == "Binary" and c["op"] in ("Gt", "Ne") and lit_value(c["b"]) == 0 and peel(c["a"]).get("k") == "MethodCall" and peel(c["a"])["name"] == "len" and ekey(peel(c["a"])["recv"]).lstrip("&*") == hidden)
+        if pos:
+            R.ok("announced", detail=f"the notice is printed when `{hidden}` is not empty", where=loc(notes[0]))
+        else:
+            R.bad("announced", "the count of diagnostics in other files is not announced exactly when it is positive", loc(notes[0]))
+        ex = no_exit_before(notes[0])
+        if ex is None:
+            R.ok("reached", detail="nothing leaves display_errors before the notice", where=loc(notes[0]))
+        else:
+            R.bad("reached", "display_errors can return before the notice about diagnostics in other files: when the base file itself is clean and the only diagnostics - for instance the error that stopped the analysis - lie in an included file, the output is empty", loc(ex))
         return
     incs = [a_ for a_ in walk(skip[0]["then"], pats=False) if a_.get("k") == "AssignOp" and a_["op"] == "AddAssign" and lit_value(a_["r"]) == 1]
     if len(incs) != 1:
@@ -1873,6 +1959,12 @@ def c15g(F, R):
         R.ok("announced", detail=f"the notice is printed when `{C}` > 0", where=loc(notes[0]))
     else:
         R.bad("announced", f"the count of diagnostics in other files is not announced exactly when it is positive: a single hidden diagnostic (or all of them) goes unmentioned", loc(notes[0]) if notes else g["sp"])
+    if notes:
+        ex = no_exit_before(notes[0])
+        if ex is None:
+            R.ok("reached", detail="nothing leaves display_errors before the notice", where=loc(notes[0]))
+        else:
+            R.bad("reached", "display_errors can return before the notice about diagnostics in other files: when the base file itself is clean and the only diagnostics - for instance the error that stopped the analysis - lie in an included file, the output is empty", loc(ex))
 
 
 @rule("C19", "C19.f.the-dump-is-printed", floor=2)
